@@ -34,6 +34,8 @@ def problem(rng, dmin=1, dmax=4, cap=64):
     with probe.oracle():
         H = gen.hermitian_tt(rng, dims, int(rng.integers(1, 4)), cplx)
         H = (1.0 / max(float(np.linalg.norm(mat(dense(H)), 2)), 1e-12)) * H
+        if rng.random() < 0.25:
+            H = gen.relayout_tt(rng, H)  # operator cores in other memory layouts (Fortran order, strided / offset views)
     return dims, H, cplx
 
 
@@ -46,14 +48,19 @@ def state(rng, dims, kind, cplx):
     else:
         r = gen.feasible_ranks(dims, [1] * d, [1] + [int(rng.integers(1, 4)) for _ in range(d - 1)] + [1])
     with probe.oracle():
-        return tt.TT(gen.right_orthonormal_cores(gen.rand_cores(rng, dims, [1] * d, r, cplx)))
+        t = tt.TT(gen.right_orthonormal_cores(gen.rand_cores(rng, dims, [1] * d, r, cplx)))
+        if rng.random() < 0.2:
+            t = gen.relayout_tt(rng, t)
+        if rng.random() < 0.2:  # (the equations are linear: a right-orthonormal state of any norm is admissible where no normalisation is asked for)
+            t.cores[0] = t.cores[0] * float(10 ** rng.uniform(-6, 3))
+        return t
 
 
 def w_tdvp1(ctx, rng, idx):
     dims, H, cplx = problem(rng)
     kind = ['maximal', 'rank1', 'intermediate'][int(rng.integers(0, 3))]
     x0 = state(rng, dims, kind, cplx or rng.random() < 0.5)
-    h, N = float(rng.uniform(0.01, 0.3)), int(rng.integers(1, 4))
+    h, N = gen.as_float(rng, float(rng.uniform(0.01, 0.3))), gen.as_int(rng, int(rng.integers(1, 4)))
     nz = 0 if rng.random() < 0.8 else 2
     ctx.describe({'op': 'tdvp1site', 'dims': dims, 'complex': cplx, 'ranks': x0.ranks, 'kind': kind, 'h': h, 'steps': N, 'normalize': nz})
     call('ode.tdvp1site', ode.tdvp1site, H, x0, h, N, prop=P, tags=['scheme=tdvp1site'], normalize=nz)
